@@ -7,6 +7,7 @@ CONSTANTS
   LP = 1
   LQ = 2
   LR = 1
+  Ext = {}
 SPECIFICATION PathsSpec
 INVARIANT DesignX
 CHECK_DEADLOCK FALSE
